@@ -51,6 +51,29 @@ def ordering(variant):
     return Agg(ORDERING, variant, ())
 
 
+def range_split(st, p, rlo, rhi):
+    """'in' / 'below' / 'above': three-way split of p against [rlo, rhi]; each side records its fact"""
+    s1 = st.sign(padd(p, pconst(rlo), -1))     # p - lo
+    s2 = st.sign(padd(pconst(rhi), p, -1))     # hi - p
+    cands = []
+    if (s1 & NONNEG) and (s2 & NONNEG):
+        cands.append('in')
+    if s1 & NEG:
+        cands.append('below')
+    if s2 & NEG:
+        cands.append('above')
+    if not cands:
+        raise Infeasible()
+    c = cands[st.choose(len(cands))] if len(cands) > 1 else cands[0]
+    if c == 'in':
+        st.assume_in_range(p, rlo, rhi)
+    elif c == 'below':
+        st.assume(padd(p, pconst(rlo), -1), NEG)
+    else:
+        st.assume(padd(pconst(rhi), p, -1), NEG)
+    return c
+
+
 # ----------------------------------------------------------------------------- conversions
 @model(r'<T as core::convert::From<T>>::from')
 def m_from_identity(I, st, fr, args, path, gargs, t):
@@ -81,15 +104,7 @@ def m_try_from_int(I, st, fr, args, path, gargs, t):
     to = re.search(r'for ' + INT + '>::try_from', path).group(1)
     x = args[0]
     rlo, rhi = INT_RANGES[to]
-    r = st.in_range(x.p, rlo, rhi)
-    if r is None:
-        k = st.choose(2)
-        if k == 0:
-            st.assume_in_range(x.p, rlo, rhi)
-            r = True
-        else:
-            st.note(('try_from-out-of-range', pfreeze(st.norm(x.p)), to))
-            r = False
+    r = range_split(st, x.p, rlo, rhi) == 'in'
     if r:
         return Agg(RESULT, 0, (I.mk(st, to, x.p),))
     return Agg(RESULT, 1, (Agg('core::num::error::TryFromIntError', 0, (UNIT,)),))
@@ -182,19 +197,7 @@ def m_checked(I, st, fr, args, path, gargs, t):
     ty, op = m.group(1), m.group(2).capitalize()
     p = I.arith_poly(st, op, args[0], args[1])
     rlo, rhi = INT_RANGES[ty]
-    r = st.in_range(p, rlo, rhi)
-    if r is None:
-        # three-way: fits / below the range / above the range (each side records its fact)
-        k = st.choose(3)
-        if k == 0:
-            st.assume_in_range(p, rlo, rhi)
-            r = True
-        elif k == 1:
-            st.assume(padd(p, pconst(rlo), -1), NEG)
-            r = False
-        else:
-            st.assume(padd(pconst(rhi), p, -1), NEG)
-            r = False
+    r = range_split(st, p, rlo, rhi) == 'in'
     if r:
         return some(I.mk(st, ty, p))
     st.note(('overflows', pfreeze(st.norm(p)), ty))
@@ -475,3 +478,51 @@ def m_precision(I, st, fr, args, path, gargs, t):
 @model(r'<core::string::String as core::ops::Deref>::deref|core::string::String::as_str')
 def m_string_deref(I, st, fr, args, path, gargs, t):
     return SliceVal(st.fresh('usize', 0, 2**62, 'strlen'), 'str')
+
+
+# ----------------------------------------------------------------------------- provided comparison methods on workspace types
+def _cmp_via_partial_cmp(I, st, fr, args, a_ty, b_ty, meth, t, nderef):
+    """core's provided lt/le/gt/ge: partial_cmp(a, b) mapped to a bool (core::cmp source, trusted)"""
+    from .db import strip_lt
+    a_ty, b_ty = strip_lt(a_ty), strip_lt(b_ty)
+    pc = I.db.find_impl_fn('core::cmp::PartialOrd', [a_ty, b_ty], 'partial_cmp')
+    if pc is None:
+        raise Stop('no partial_cmp impl for %s, %s' % (a_ty, b_ty))
+    a, b = args
+    for _ in range(nderef):
+        a, b = deref1(I, st, a), deref1(I, st, b)
+    want = {'lt': (0,), 'le': (0, 1), 'gt': (2,), 'ge': (1, 2)}[meth]
+
+    def conv(I_, st_, r):
+        if not (isinstance(r, Agg) and r.kind == OPTION):
+            raise Stop('partial_cmp returned %r' % (r,))
+        if r.variant == 0:
+            return K(0, 'bool')
+        return K(int(r.fields[0].variant in want), 'bool')
+    nf_args = [a, b]
+    from .absint import Frame
+    L = {1: a, 2: b}
+    nf = Frame(pc, pc, L, t['dest'], t['target'], {})
+    nf.on_return = conv
+    st.frames.append(nf)
+    return CALL_PUSHED
+
+
+def deref1(I, st, v):
+    if isinstance(v, Ref):
+        tf = I.frame_of(st, v.frame)
+        return I.project(st, tf, tf.L.get(v.local), v.proj)
+    raise Stop('deref1 of %r' % (v,))
+
+
+@model(r'core::cmp::impls::<impl core::cmp::PartialOrd<&B> for &A>::(lt|le|gt|ge)')
+def m_ref_partial_ord(I, st, fr, args, path, gargs, t):
+    meth = path.rsplit('::', 1)[1]
+    tys = [g for g in gargs if not g.startswith("'")]
+    return _cmp_via_partial_cmp(I, st, fr, args, tys[0], tys[1], meth, t, 1)
+
+
+@model(r'core::cmp::PartialOrd::(lt|le|gt|ge)')
+def m_provided_partial_ord(I, st, fr, args, path, gargs, t):
+    meth = path.rsplit('::', 1)[1]
+    return _cmp_via_partial_cmp(I, st, fr, args, gargs[0], gargs[1], meth, t, 0)
